@@ -49,7 +49,7 @@ def _kernel(variant, beta_kind, beta_pre, beta_post):
              requires=[_T + " >= 1", _K + " >= 1", _K + " <= 65536"] + beta_pre,
              ghost={'returns': dict(F='future_cost_vals', P='path_matrix', B='label_switching_cost'),
                     'return_kinds': dict(F='arr2[real]', P='arr2[int]', B='arr1[real]'),
-                    'dtype:path_matrix': 'uint16', 'native_ensures': _NATIVE},
+                    'native_ensures': _NATIVE},
              ensures=[("labels-length", "len(result[0]) == " + _T),
                       ("labels-in-range", "forall(0, %s, lambda t: 0 <= result[0][t] and result[0][t] < %s)" % (_T, _K)),
                       ("beta-broadcast", beta_post),
